@@ -8,7 +8,8 @@ Record Sim (s1 : st1) (s0 : st0) : Prop := mkSim {
   sim_chain : chain_ok (log1 s1);
   sim_keys : keys_ok (keys1 s1) (log1 s1);
   sim_sorted : ksorted (keys1 s1);
-  sim_lev : Rlev (log1 s1) (stages1 s1) (stages0 s0) (base0 s0) (regs1 s1) (regs0 s0);
+  sim_lev : Rlev (log1 s1) (stages1 s1) (stages0 s0) (base0 s0) (lastcp1 s1) (regs1 s1) (regs0 s0);
+  sim_lastcp : lastcp0 s0 = lastcp1 s1;
   sim_kf : kf0 s0 = live (keys1 s1);
   sim_dirty : dirty0 s0 = dirty1 s1;
   sim_el : elimit0 s0 = elimit1 s1;
@@ -69,7 +70,7 @@ Qed.
 
 Lemma snap_split : exists pre rest, log1 s1 = pre ++ rest /\ base0 s0 = jof rest /\ length rest = snap_pos s1.
 Proof.
-  destruct (Rlev_base _ _ _ _ _ _ (sim_lev _ _ HS)) as (pre & rest & E & B & L).
+  destruct (Rlev_base _ _ _ _ _ _ _ (sim_lev _ _ HS)) as (pre & rest & E & B & L).
   exists pre, rest. repeat split; assumption.
 Qed.
 
@@ -170,7 +171,7 @@ Proof.
     + intros k ent H D. unfold snap_val. destruct (ent_del _ _ H D) as [-> _]. reflexivity.
   - (* inspect *) rewrite depth_eq. destruct (Nat.eqb h 0 || Nat.ltb (depth1 s1) h) eqn:G; [reflexivity|].
     apply orb_false_elim in G. destruct G as [G1 G2]. apply Nat.eqb_neq in G1. apply Nat.ltb_ge in G2.
-    destruct (Rlev_upto _ _ _ _ _ _ (depth1 s1 - h) (sim_lev _ _ HS)) as (li & rest & E & L & C).
+    destruct (Rlev_upto _ _ _ _ _ _ _ (depth1 s1 - h) (sim_lev _ _ HS)) as (li & rest & E & L & C).
     { unfold depth1 in *. lia. }
     f_equal. rewrite <- L, E, C.
     apply (inspect_spec [] li rest []); [exact E|].
